@@ -14,7 +14,8 @@ Fixpoint func_dnames (z : list zframe) : list Z :=
 
 (* a frame below the top only gains var-like names V *)
 Definition grow_one (V : list Z) (g g' : zframe) : Prop :=
-  incl (dn g) (dn g') /\ forall y, In y (dn g') -> In y (dn g) \/ In y V.
+  incl (dn g) (dn g') /\ (forall y, In y (dn g') -> In y (dn g) \/ In y V) /\
+  (forall y, In (UPend y) (fund (fst g')) -> In (UPend y) (fund (fst g))).
 
 (* var-like names stop at the first function frame *)
 Definition below (V : list Z) (g : zframe) : list Z := if fisfunc (fst g) then [] else V.
@@ -38,20 +39,24 @@ Definition grow (L V : list Z) (z z' : list zframe) : Prop :=
   end.
 
 Lemma grow_one_refl V g : grow_one V g g.
-Proof. split; [apply incl_refl|intros y H; left; exact H]. Qed.
+Proof. split; [apply incl_refl|]. split; [intros y H; left; exact H|intros y H; exact H]. Qed.
 
 Lemma grow_rest_refl V r : grow_rest V r r.
 Proof. revert V. induction r as [|g t IH]; intros V; cbn; [exact I|]. split; [apply grow_one_refl|apply IH]. Qed.
 
 Lemma grow_one_trans V1 V2 g1 g2 g3 : grow_one V1 g1 g2 -> grow_one V2 g2 g3 -> grow_one (V1 ++ V2) g1 g3.
 Proof.
-  intros [A1 B1] [A2 B2]. split; [eapply incl_tran; eassumption|].
-  intros y Hy. destruct (B2 y Hy) as [H|H]; [|right; apply in_app_iff; right; exact H].
-  destruct (B1 y H) as [H'|H']; [left; exact H'|right; apply in_app_iff; left; exact H'].
+  intros (A1 & B1 & C1) (A2 & B2 & C2). split; [eapply incl_tran; eassumption|]. split.
+  - intros y Hy. destruct (B2 y Hy) as [H|H]; [|right; apply in_app_iff; right; exact H].
+    destruct (B1 y H) as [H'|H']; [left; exact H'|right; apply in_app_iff; left; exact H'].
+  - intros y Hy. apply C1. apply C2. exact Hy.
 Qed.
 
 Lemma grow_one_weaken V V' g g' : incl V V' -> grow_one V g g' -> grow_one V' g g'.
-Proof. intros Hi [A B]. split; [exact A|]. intros y Hy. destruct (B y Hy) as [H|H]; [left; exact H|right; apply Hi; exact H]. Qed.
+Proof.
+  intros Hi (A & B & C). split; [exact A|]. split; [|exact C].
+  intros y Hy. destruct (B y Hy) as [H|H]; [left; exact H|right; apply Hi; exact H].
+Qed.
 
 Lemma below_incl V V' g : incl V V' -> incl (below V g) (below V' g).
 Proof. intros H. unfold below. destruct (fisfunc (fst g)); [apply incl_refl|exact H]. Qed.
